@@ -567,8 +567,8 @@ def run(chk, replay=None):
                                   'shift_phase(sf,pe,qe)': info.get('shift_phase'),
                                   'entries_using_raw_f': [e['test'][:50] for e in info['entries'] if not all(g['use_sf'] for g in e['terms'])]}
     # ---- 2. proofs
-    broken = chk.lean(['Lcapy/Props/C12.lean', 'Lcapy/Props/C12Trap.lean'],
-                      helper_files=['Lcapy/Proofs/Fourier.lean', 'Lcapy/Proofs/FourierAnchors.lean', 'Lcapy/Spec/Fourier.lean',
+    broken = chk.lean(['Lcapy/Props/C12.lean', 'Lcapy/Props/C12Trap.lean', 'Lcapy/Props/NonVacuityC12.lean'],
+                      helper_files=['Lcapy/Proofs/Fourier.lean', 'Lcapy/Proofs/FourierAnchors.lean', 'Lcapy/Proofs/LaplaceIntegral.lean', 'Lcapy/Spec/Fourier.lean',
                                     'Lcapy/Spec/FourierExec.lean', 'Lcapy/Model/Fourier.lean', 'Lcapy/Generated/FourierTable.lean',
                                     'Lcapy/Driver/C12.lean'],
                       leanchecker=(chk.tier == 'thorough'))
